@@ -45,8 +45,12 @@ def oracle_top_sort(inst: Instance):
 
 def new_model(repo):
     M = cm.Model(repo, Denotations(repo))
-    M.interp.method_oracles[('Circuit', 'top_sort')] = oracle_top_sort
-    M.interp.max_steps = 2_000_000
+    # (the attached circuit is copied in the order of its own top_sort: the repository's Kahn loop is folded with it, run to
+    # completion; it used to be replaced by an oracle order, which hid a seeded change to top_sort from C10 and C13)
+    M.interp.eager_generators.add('cirbo.core.circuit.circuit.Circuit.top_sort')
+    M.interp.eager_generators.add('cirbo.core.circuit.circuit.Circuit._traverse_circuit')
+    M.interp.max_steps = 4_000_000
+    M.interp.executed = {}
     M.interp.allow_while = True     # e.g. `while connector in outputs: outputs.remove(connector)` is a worklist over the model state
     return M
 
@@ -89,6 +93,8 @@ OTHERS = [
     ([('x', 'INPUT', ())], ('x',)),
     # gates listing an operand twice (the users index must list them once per occurrence)
     ([('x', 'INPUT', ()), ('y', 'INPUT', ()), ('z', 'AND', ('x', 'x')), ('w', 'OR', ('z', 'y', 'z'))], ('w', 'z')),
+    # a constant that carries operands (it must still come after them wherever the circuit is copied)
+    ([('x', 'INPUT', ()), ('y', 'INPUT', ()), ('z', 'OR', ('x', 'y')), ('t', 'ALWAYS_TRUE', ('z',)), ('w', 'AND', ('t', 'z'))], ('w', 't')),
 ]
 
 
@@ -238,6 +244,16 @@ def fold_connect(ck: Checker, R: str, R_block: str | None = None):
                                 break
                         if bad:
                             bprobs.append(f'{bad}: {desc}')
+                        # the same region cut out of the composed circuit by the block's own interface (documented: the gates
+                        # between the given outputs and the given inputs) is the block again
+                        if not right:
+                            members = sorted(blk._d['_gates'])
+                            _, err = M.call(base, 'make_block_from_slice', 'again', list(blk._d['_inputs']), list(blk._d['_outputs']))
+                            again = base._d['_blocks'].get('again')
+                            if err or again is None:
+                                bprobs.append(f'make_block_from_slice refuses the interface of the block just created ({err}): {desc}')
+                            elif sorted(again._d['_gates']) != members:
+                                bprobs.append(f'make_block_from_slice over the interface of the block collects {sorted(again._d["_gates"])}, the block is {members}: {desc}')
             if len(probs) > 4 or len(bprobs) > 4:
                 break
     ck.check(not probs, R, mod, fn, f'connect_circuit folded over {n_cases} compositions (2 base x 4 attached circuits, connector lists of length 0..2 incl. internal and repeated base gates, both directions, naming/prefix options): '
@@ -263,6 +279,7 @@ def fold_miter(ck: Checker, R: str):
         ([('a', 'INPUT', ()), ('b', 'INPUT', ()), ('g', 'AND', ('a', 'b'))], ('g',)),
         ([('b', 'INPUT', ()), ('a', 'INPUT', ()), ('g', 'GT', ('a', 'b'))], ('g',)),
         ([('p', 'INPUT', ()), ('q', 'INPUT', ()), ('r', 'NAND', ('p', 'q')), ('s', 'NOT', ('r',))], ('s',)),
+        ([('p', 'INPUT', ()), ('q', 'INPUT', ()), ('r', 'NOR', ('p', 'q')), ('t', 'ALWAYS_FALSE', ('r', 'p')), ('s', 'OR', ('t', 'r'))], ('s',)),
     ]
     T2 = [
         ([('a', 'INPUT', ()), ('b', 'INPUT', ()), ('g', 'XOR', ('a', 'b'))], ('g', 'a')),
@@ -271,10 +288,20 @@ def fold_miter(ck: Checker, R: str):
         ([('x', 'INPUT', ()), ('y', 'INPUT', ())], ('y', 'y')),
     ]
     T0 = [([('a', 'INPUT', ())], ()), ([('z', 'INPUT', ()), ('g', 'NOT', ('z',))], ())]
+    # many outputs: the right circuit differs from the left one in exactly one output position (every position in turn)
+    wide = [('a', 'INPUT', ()), ('b', 'INPUT', ()), ('c', 'INPUT', ()), ('g0', 'AND', ('a', 'b')), ('g1', 'OR', ('b', 'c')), ('g2', 'XOR', ('a', 'c')),
+            ('n0', 'NAND', ('a', 'b')), ('n1', 'NOR', ('b', 'c')), ('n2', 'NXOR', ('a', 'c'))]
+    many = []
+    for width in ((3, 6, 10) if ck.tier == 'quick' else (3, 5, 6, 7, 10, 12, 14)):
+        louts = tuple(f'g{i % 3}' for i in range(width))
+        many.append(((wide, louts), (wide, louts)))
+        for k in (range(width) if width <= 6 else (0, width // 2, width - 3, width - 2, width - 1)):
+            routs = tuple((f'n{i % 3}' if i == k else f'g{i % 3}') for i in range(width))
+            many.append(((wide, louts), (wide, routs)))
     probs = []
     n = 0
-    for fam in (T1, T2, T0):
-        for (ls, lo), (rs, ro) in itertools.product(fam, repeat=2):
+    for fam in (T1, T2, T0, many):
+        for (ls, lo), (rs, ro) in (itertools.product(fam, repeat=2) if fam is not many else fam):
             n += 1
             left, right = M.new_circuit(ls, lo), M.new_circuit(rs, ro)
             bl, br = cm.snapshot(left), cm.snapshot(right)
@@ -417,10 +444,22 @@ def fold_wrappers(ck: Checker, R: str):
         ('add_circuit', (), {}, ([], [], False)),
         ('add_circuit', (), {'name': 'blk'}, ([], [], False)),
     ]
-    for wname, args, kwargs, (TC, OC, right) in cases:
+    # an attached circuit with an unconnected input that is also one of its outputs (a pass-through)
+    o3 = ([('x', 'INPUT', ()), ('y', 'INPUT', ()), ('z', 'XOR', ('x', 'y')), ('w', 'NOT', ('z',))], ('w', 'x', 'z'))
+    cases = [c + (o2,) for c in cases] + [
+        ('connect_right', (['z', 'w'],), {}, (binputs, ['z', 'w'], True), o3),
+        ('connect_right', (['w', 'z'],), {'name': 'blk'}, (binputs, ['w', 'z'], True), o3),
+        ('extend_circuit', (), {'right_connect': True, 'other_connectors': ['z', 'w']}, (binputs, ['z', 'w'], True), o3),
+        ('connect_left', (['g', 'a'],), {'name': 'blk'}, (['g', 'a'], oinputs, False), o3),
+        ('connect_inputs', (), {}, (binputs, oinputs, True), o3),
+        ('add_circuit', (), {'name': 'blk', 'add_prefix': False}, ([], [], False), o3),
+        ('add_circuit', (), {'name': 'blk', 'add_prefix': False}, ([], [], False), o2),
+        ('extend_circuit', (), {'name': 'blk', 'add_prefix': False}, (bouts, oinputs, False), o2),
+    ]
+    for wname, args, kwargs, (TC, OC, right), oX in cases:
         f = mod.func(f'Circuit.{wname}')
-        base1, other1 = M.new_circuit(*b2), M.new_circuit(*o2)
-        base2, other2 = M.new_circuit(*b2), M.new_circuit(*o2)
+        base1, other1 = M.new_circuit(*b2), M.new_circuit(*oX)
+        base2, other2 = M.new_circuit(*b2), M.new_circuit(*oX)
         _, e1 = M.call(base1, wname, other1, *args, **kwargs)
         ckw = {k: v for k, v in kwargs.items() if k in ('name', 'add_prefix')}
         _, e2 = M.call(base2, 'connect_circuit', other2, list(TC), list(OC), right_connect=right, **ckw)
